@@ -55,6 +55,10 @@ fn grow(r: &'[]i32) {
 
 type BoxD struct { .F: []i32, .N: i32 };
 
+type Hits struct { .N: i32, .In: In };
+
+type View struct { .Hits: &'Hits, .K: i32 };
+
 fn fail() -> str ! i32 {
     return "bad"!;
 }
@@ -195,6 +199,21 @@ func c06Kinds() []c06Kind {
 			header: [2]string{"fn (s: &P) work()", "fn (s: &'P) work()"},
 			call:   "let p0: P = mkP();\n    p0.work();",
 			places: append(structPaths("ref-receiver", "s")[1:], c06Place{"ref-receiver", "s", "Pref", "s.X"})},
+		// a struct that holds a mutable reference, itself reached through an immutable reference:
+		// what lies behind the inner &' field is still reached through the immutable outer reference
+		{name: "ref-param-to-struct-with-mut-ref-field",
+			header: [2]string{"fn work(v: &View)", "fn work(v: &'View)"},
+			call:   "let h0: Hits = { .N = 1, .In = { .A = 3, .B = 4 } };\n    let v0: View = { .Hits = &'h0, .K = 2 };\n    work(&'v0);",
+			places: []c06Place{{"ref-param-to-struct-with-mut-ref-field", "v.Hits.N", "i32", "v.Hits.N"}, {"ref-param-to-struct-with-mut-ref-field", "v.Hits.In.A", "i32", "v.Hits.In.A"}, {"ref-param-to-struct-with-mut-ref-field", "v.Hits.In", "In", "v.Hits.In.A"}, {"ref-param-to-struct-with-mut-ref-field", "v.K", "i32", "v.K"}}},
+		{name: "ref-receiver-to-struct-with-mut-ref-field",
+			header: [2]string{"fn (v: &View) work()", "fn (v: &'View) work()"},
+			call:   "let h0: Hits = { .N = 1, .In = { .A = 3, .B = 4 } };\n    let v0: View = { .Hits = &'h0, .K = 2 };\n    v0.work();",
+			places: []c06Place{{"ref-receiver-to-struct-with-mut-ref-field", "v.Hits.N", "i32", "v.Hits.N"}, {"ref-receiver-to-struct-with-mut-ref-field", "v.Hits.In.B", "i32", "v.Hits.In.B"}}},
+		{name: "ref-local-to-struct-with-mut-ref-field",
+			header: [2]string{"fn work()", "fn work()"}, call: "work();",
+			local: [2]string{"let h0: Hits = { .N = 1, .In = { .A = 3, .B = 4 } };\n    let v0: View = { .Hits = &'h0, .K = 2 };\n    let v: &View = &v0;",
+				"let h0: Hits = { .N = 1, .In = { .A = 3, .B = 4 } };\n    let v0: View = { .Hits = &'h0, .K = 2 };\n    let v: &'View = &'v0;"},
+			places: []c06Place{{"ref-local-to-struct-with-mut-ref-field", "v.Hits.N", "i32", "v.Hits.N"}}},
 		{name: "ref-local",
 			header: [2]string{"fn work()", "fn work()"}, call: "work();",
 			local: [2]string{"let x0: i32 = 4;\n    let p0: P = mkP();\n    let r: &i32 = &x0;\n    let q: &P = &p0;",
@@ -345,7 +364,7 @@ func c06Program(k c06Kind, variant int, body string, withWitness string) string 
 func checkC06(c *Ctx) error {
 	r := c.R
 	r.Exhaustive = true
-	r.Rule = "finite product enumerated completely: immutable place kind {local const scalar/struct/array, const dynamic array (elements, whole, nested, held in a const struct), const string, const map, const optional, module const, const inside a method, two-variable for index (over dynamic arrays, ranges, strings and map keys, with a named and with a discarded `_` value variable), catch error variable, &T parameter, &T receiver, &T local} x access path {ident, .f, .f.g, [k], (x), whole} x mutation form {=, +=, -=, *=, ++, --, &' borrow, pass to &' parameter, &'-receiver method, append} x context {plain, if, else, while, match arm, closure, block}; every mutant must be rejected by the real compiler; control = same program with the binding made mutable (or without the mutation when no mutable counterpart exists) must be accepted; non-trivial = a distinct mutant whose control was accepted"
+	r.Rule = "finite product enumerated completely: immutable place kind {local const scalar/struct/array, const dynamic array (elements, whole, nested, held in a const struct), const string, const map, const optional, module const, const inside a method, two-variable for index (over dynamic arrays, ranges, strings and map keys, with a named and with a discarded `_` value variable), catch error variable, &T parameter, &T receiver, &T local, &T to a struct that holds a &' field (the place behind that field)} x access path {ident, .f, .f.g, [k], (x), whole} x mutation form {=, +=, -=, *=, ++, --, &' borrow, pass to &' parameter, &'-receiver method, append} x context {plain, if, else, while, match arm, closure, block}; every mutant must be rejected by the real compiler; control = same program with the binding made mutable (or without the mutation when no mutable counterpart exists) must be accepted; non-trivial = a distinct mutant whose control was accepted"
 	r.Assumptions = []string{"rejection for any reason counts as rejected only when the control is accepted, so the verdict is attributable to the mutation"}
 	kinds := c06Kinds()
 	type cse struct {
